@@ -221,7 +221,15 @@ pub fn check_case(c: &Case) -> Outcome {
             }
         }
         if let Some(ch) = changed {
-            if flipped != (ch && first_change == Some(t)) && t < fsw {
+            // low-rank: a declined update (previous value kept) still counts as the first update attempt in the
+            // code and consumes the one-time search; recorded as an observation, not judged
+            let lowrank = matches!(spec.preset, Preset::LowRankNuts | Preset::LowRankMclmc);
+            let declined_attempt = lowrank && !ch && (pb.last_update == t as u64);
+            if declined_attempt && flipped {
+                o.label("observation:declined-lowrank-update-consumed-the-search");
+            }
+            let later_after_declined = lowrank && ch && first_change == Some(t) && !pa.has_initial_mass_matrix;
+            if flipped != (ch && first_change == Some(t)) && t < fsw && !declined_attempt && !later_after_declined {
                 fail(&mut o, "first-change-flag", format!("first-change flag flipped = {flipped}, transformation changed = {ch}, first change at {first_change:?}"));
                 return o;
             }
